@@ -1,14 +1,21 @@
 reg("C01", "kriging output = solution of the documented (co)kriging system",
     parts=[dict(harness="c01_krige", cases=dict(quick=3000, thorough=30000), timeout_case=20)],
-    rule="case = (ndim 1-3, nvar 1-3, isotopic / random undefined cells / one sparse variable, known mean or drift order "
-         "0/1/2 with 0-2 external drifts, optional measurement-error variances, 1-3 nested rotated anisotropic structures "
-         "+ optional nugget, unique or moving neighbourhood, target kind point Db / (rotated) grid / grid blocks) drawn "
-         "from the case PRNG; kriging(), a KrigingSystem driven target by target and krigtest() are compared with an "
-         "independent long-double solve of [Sigma X; Xt 0] assembled pointwise on KrigingSystem::getSampleIndices(); "
-         "systems with reference condition number > 1e9 are skipped; distinct = distinct discrete configurations "
-         "with at least one non-skipped oracle evaluation",
+    rule="case = (ndim 1-3, nvar 1-3, isotopic / random undefined cells / one sparse variable / whole samples undefined, "
+         "known mean or drift order 0/1/2 or an explicit monomial list, 0-2 external drifts (some undefined at data), optional "
+         "measurement-error variances, 1-3 nested rotated anisotropic structures + optional nugget, unique or moving "
+         "neighbourhood, target kind point Db / (rotated) grid / grid blocks / per-cell blocks (krigcell)) drawn from the case "
+         "PRNG; kriging() (all outputs, estimate only, linear combinations matLC), a KrigingSystem driven target by target "
+         "(weights, dual vector, right-hand side, C00, outputs) and krigtest() are compared with an independent long-double "
+         "solve of [Sigma X; Xt 0] assembled pointwise on KrigingSystem::getSampleIndices(); systems with reference condition "
+         "number > 1e9 (or singular, or with fewer data than drift equations) are skipped and counted; distinct = distinct "
+         "discrete configurations with at least one non-skipped oracle evaluation",
     level="exploration",
-    require=dict(distinct=100),
+    require=dict(distinct=300,
+                 oracles=dict(quick={"weights": 9000, "estim": 20000, "stdev2": 18000, "varz": 12000, "rhs": 9000, "dual": 5000,
+                                     "c00": 9000, "lc-estim": 1800, "krigtest": 1800},
+                              thorough={"weights": 72000, "estim": 160000, "stdev2": 144000, "varz": 96000, "rhs": 72000,
+                                        "dual": 40000, "c00": 72000, "lc-estim": 14000, "krigtest": 14000}),
+                 probes=["h.hetero", "h.verr", "h.block", "h.extdrift", "h.matLC"]),
     assumptions=["the model's pointwise covariance function Model::eval(p1,p2,ivar,jvar) is taken as given (C03 checks it)",
                  "the neighbourhood selection is taken as given (C06 checks it)",
                  "grid node coordinates are read back from the DbGrid (C16 checks them)",
